@@ -56,6 +56,8 @@ public:
     virtual void simplifications(const Desc&, Vec<Desc>&) {}
     virtual bool opRemovable(const Group&, size_t) { return true; }
     virtual bool groupRemovable(const Desc&, size_t) { return true; }
+    // scheduler decisions of the run just executed (engines with real interleavings): stored in the replay file so that it replays as data
+    virtual void recordedSchedule(Vec<int64_t>&) {}
 };
 
 inline double nowSec() { struct timespec ts; clock_gettime(CLOCK_MONOTONIC, &ts); return (double)ts.tv_sec + (double)ts.tv_nsec * 1e-9; }
@@ -300,6 +302,7 @@ inline int driverMain(int argc, char** argv, Engine& e) {
             continue;
         }
         violRuns++;
+        if (d.schedule.empty()) e.recordedSchedule(d.schedule);
         for (size_t v = 0; v < r.viols.size(); v++) {
             if (!propMatches(a.prop, r.viols[v].prop)) { classCounts[Str("other:") + r.viols[v].cls()]++; continue; }
             Str cls = r.viols[v].cls();
